@@ -39,6 +39,52 @@ theorem C16_effects_table_complete :
     (sharedWrites.map (·.1)).eraseDups.length = 7 := by
   decide
 
+/-! ### from the table to schedule independence
+
+The reading of the table is made explicit as a hypothesis: an operation of the interleaving model stands for an entry
+point of a solver configuration, and *if that entry point's row is empty, the operation leaves the shared value as it
+was* (`RespectsTable` — this is what the effect extraction asserts about the C++; it is the trusted step).  Under that
+reading the theorems above give: a system whose operations are all calls of the three named entry points, on any
+analysed configuration, is schedule independent. -/
+
+/-- the row of the table for a configuration and an entry point (`none` if the configuration was not analysed) -/
+def effectsRow (cfg : String) (e : EntryPoint) : Option (List String) :=
+  (sharedWrites.find? fun r => r.1 == cfg && r.2.1 == e).map (·.2.2)
+
+/-- operations labelled with the entry point they stand for -/
+structure LabelledStep (S σ ρ ω : Type) where
+  entry : ω → EntryPoint
+  step : S → σ → ω → (σ × ρ) × S
+
+/-- the reading of the table -/
+def RespectsTable {S σ ρ ω : Type} (cfg : String) (ls : LabelledStep S σ ρ ω) : Prop :=
+  ∀ s l op, effectsRow cfg (ls.entry op) = some [] → (ls.step s l op).2 = s
+
+/-- every named entry point of every analysed configuration has an empty row -/
+theorem C16_named_rows_empty :
+    (sharedWrites.map (·.1)).eraseDups.all (fun cfg =>
+      [EntryPoint.getState, .calculateRateConstants, .solve2].all fun e => effectsRow cfg e == some []) = true := by
+  decide
+
+/-- **schedule independence of the named entry points, from the extracted table**: if the operations respect the table,
+    all of them are calls of `GetState` / `CalculateRateConstants` / `Solve(time_step, state)` and the configuration's rows
+    for these are empty (which `C16_named_rows_empty` establishes for all seven analysed configurations), then running
+    any schedule leaves the shared solver value untouched and gives every thread what the read-only model gives it -- and
+    that, by `C16_schedule_independence`, is its serial result. -/
+theorem C16_named_ops_schedule_independent {S σ ρ ω : Type} (cfg : String) (ls : LabelledStep S σ ρ ω)
+    (hrows : ∀ e, c16Named e = true → effectsRow cfg e = some [])
+    (hresp : RespectsTable cfg ls) (hnamed : ∀ op, c16Named (ls.entry op) = true)
+    (s : S) (sched : List Nat) (ts : Nat → TState σ ρ ω) :
+    runSchedW ls.step s sched ts = (s, runSched (fun s l op => (ls.step s l op).1) s sched ts) := by
+  have hstep : ls.step = fun s l op => ((ls.step s l op).1, s) := by
+    funext s l op
+    have h2 : (ls.step s l op).2 = s := hresp s l op (hrows _ (hnamed op))
+    exact Prod.ext rfl h2
+  rw [hstep]
+  exact C16_readonly_steps_embed (fun s l op => (ls.step s l op).1) s sched ts
+
+#print axioms C16_named_rows_empty
+#print axioms C16_named_ops_schedule_independent
 #print axioms C16_entry_points_write_nothing_shared
 #print axioms C16_effects_table_complete
 end Micm
